@@ -54,7 +54,45 @@ def compute(tier, seed):
     meta = corpus_rt.write_crate(pl, crate)
     cases = {c["id"]: c for g in pl.groups for c in g["cases"]}
     log(f"rt[{tier}]: {len(pl.groups)} groups, {len(cases)} cases planned in {time.time() - t0:.1f}s")
+    # C02: a small corpus covering every unsafe site is executed under Miri as well (in parallel with the main corpus)
+    miri = {"cases": 0, "events": 0, "aborts": 0}
+    mbox = {}
+    mthread = None
+    if os.environ.get("VERIF_NO_MIRI") != "1":
+        mpl = corpus_rt.build_plan("miri", seed)
+        # one case per binary (Miri is slow; the binaries run in parallel); ids must not collide with the main corpus
+        mpl.groups = [{"id": f"m{c['id']}", "gprop": "", "cases": [c], "kind": "miri"} for g in mpl.groups for c in g["cases"]]
+        for g in mpl.groups:
+            for c in g["cases"]:
+                c["id"] += 1000000
+        mcrate = os.path.join(WORK, "rt", "miri")
+        mmeta = corpus_rt.write_crate(mpl, mcrate, cases_per_bin=0, rustflags=False)
+
+        def miri_job():
+            try:
+                mbox["res"] = run_rt.miri_run(mcrate, mmeta, os.path.join(mcrate, "traces"), log=log, jobs=8)
+            except Exception as e:      # re-raised in the main thread
+                mbox["err"] = e
+        import threading
+        mthread = threading.Thread(target=miri_job)
+        mthread.start()
     failed, shards, aborts = run_rt.build_and_run(crate, meta, cases, os.path.join(crate, "traces"), log=log)
+    if mthread:
+        mthread.join()
+        if "err" in mbox:
+            raise mbox["err"]
+        mshards, maborts = mbox["res"]
+        miri = {"cases": sum(len(b["cases"]) for b in mmeta["bins"]), "events": sum(s_["events"] for s_ in mshards), "aborts": maborts}
+        for b in mmeta["bins"]:
+            for c in b["cases"]:
+                c["label"] = "miri:" + c["label"]
+            b["src"] = os.path.relpath(os.path.join(mcrate, b["src"]), crate)
+            b["script"] = os.path.relpath(os.path.join(mcrate, b["script"]), crate)
+        meta["bins"] += mmeta["bins"]
+        for g in mpl.groups:
+            for c in g["cases"]:
+                cases[c["id"]] = c
+        shards += mshards
     viols, jst = judge.judge_shards(shards, log=log)
     cov = coverage_counts(shards, meta)
     cm = {}
@@ -62,6 +100,13 @@ def compute(tier, seed):
         for c in b["cases"]:
             cm[c["id"]] = {k: c[k] for k in ("grp", "gprop", "kind", "label", "repr", "n", "attrs", "ctx")}
             cm[c["id"]]["src"] = [os.path.join(crate, b["src"] + ".orig"), c["start"], c["end"]]
+            cm[c["id"]]["script"] = os.path.join(crate, b["script"])
+            if c.get("lib"):
+                cm[c["id"]]["libsrc"] = [os.path.join(crate, "src", "lib.rs.orig"), c["lib"]["start"], c["lib"]["end"]]
+    for sh in shards:
+        for cid, line in sh.get("first_line", {}).items():
+            if cid in cm:
+                cm[cid]["trace"] = [sh["trace"], line]
     # compact violations
     out = []
     for v in viols:
@@ -75,7 +120,7 @@ def compute(tier, seed):
     kinds = collections.Counter(g["kind"] for g in pl.groups for _ in g["cases"])
     return {"tier": tier, "seed": seed, "violations": out, "cases": {str(k): v for k, v in cm.items()},
             "failed": {str(k): v for k, v in failed.items()}, "coverage": cov,
-            "tlc": {"stimuli": pl.stim_stats, "judge": jst}, "aborts": aborts,
+            "tlc": {"stimuli": pl.stim_stats, "judge": jst}, "aborts": aborts, "miri": miri,
             "n_cases": len(cases), "n_groups": len(pl.groups), "kinds": dict(kinds),
             "events": sum(s["events"] for s in shards), "shards": len(shards), "crate": crate}
 
